@@ -1079,3 +1079,690 @@ Proof.
   apply wrun_Sh; [apply MInv_init|apply WInv_init|apply Sl_init| |apply Ch_init|apply Pq_init|apply Y_init|apply Sh_init].
   exact (reachable_LK (winit scr) (ex_intro _ scr (ex_intro _ [] eq_refl))).
 Qed.
+
+(** ** the monitor relation *)
+(** what the current step has done and the monitor has not seen yet (between the components of one step) *)
+Inductive pend := PNone | PAcc (t : tid) (c x : Z) | PBadDrop (c : Z).
+Definition pendm (p : pend) (c : Z) : list Z :=
+  match p with PAcc _ c' x => if c' =? c then [x] else [] | _ => [] end.
+Definition begun_of (p : pend) (m : m13) : list Z :=
+  match p with PBadDrop _ => tl (m13_cbegun m) | _ => m13_cbegun m end.
+
+Record CRel (p : pend) (st : wstate) (m : m13) : Prop := {
+  r_bad : m13_bad m = false;
+  r_open : forall c, copen (chs st c) = true -> accs m c ++ pendm p c = fwds m c ++ transit st c ++ cq (chs st c);
+  r_done : forall c, memZ c (m13_cdone m) = true -> copen (chs st c) = false /\ cexists (chs st c) = true;
+  r_begun : forall c, cexists (chs st c) = true -> copen (chs st c) = false -> memZ c (begun_of p m) = true;
+  r_ex_acc : forall t c x, In (t, (c, x)) (m13_acc m) -> cexists (chs st c) = true;
+  r_ex_fwd : forall c x, In (c, x) (m13_fwd m) -> cexists (chs st c) = true;
+  r_acc_sent : forall t c x, In (t, (c, x)) (m13_acc m) -> exists l, In (mkCS t c x l) (m13_sends m);
+  r_acc_nd : NoDup (map snd (m13_acc m));
+  r_late_dom : forall t l, get_tid t (m13_late m) = Some l ->
+               exists c, (exists x, tcur (thr st t) = Some (CSend c x)) \/ tcur (thr st t) = Some (CClosed c);
+  r_late_nd : NoDup (map fst (m13_late m));
+  r_send : forall t c x, tcur (thr st t) = Some (CSend c x) ->
+           (exists l l1 l2, m13_sends m = l1 ++ mkCS t c x l :: l2 /\ (forall s, In s l1 -> cs_tid s <> t) /\
+                            get_tid t (m13_late m) = Some l /\
+                            (l = true -> copen (chs st c) = false /\ cexists (chs st c) = true)) /\
+           ~ In (t, (c, x)) (m13_acc m) /\
+           (tret (thr st t) = RBool true -> p = PAcc t c x);
+  r_pacc : forall t c x, p = PAcc t c x ->
+           tcur (thr st t) = Some (CSend c x) /\ tcont (thr st t) = [] /\ tret (thr st t) = RBool true /\
+           copen (chs st c) = true;
+  r_closedcmd : forall t c, tcur (thr st t) = Some (CClosed c) ->
+           exists l, get_tid t (m13_late m) = Some l /\
+                     (l = true -> copen (chs st c) = false /\ cexists (chs st c) = true) /\
+                     (forall b, ((exists m', In (IUnlock m' (URet (RBool b))) (tcont (thr st t))) \/ tret (thr st t) = RBool b) ->
+                                l = true -> b = true);
+  r_dropcmd : forall t c, tcur (thr st t) = Some (CCDrop c) ->
+           (p = PBadDrop c /\ exists old, m13_cbegun m = c :: old) \/
+           (p <> PBadDrop c /\ memZ c (m13_cbegun m) = true /\ cexists (chs st c) = true /\
+            ((exists m', In (ILock m' (LChClose c)) (tcont (thr st t))) \/ copen (chs st c) = false));
+  r_pbad : forall c, p = PBadDrop c -> exists t, tcur (thr st t) = Some (CCDrop c);
+  r_ord : forall a1 t c x a2, m13_acc m = a1 ++ (t, (c, x)) :: a2 ->
+          forall l l1 l2, m13_sends m = l1 ++ mkCS t c x l :: l2 ->
+          forall e, In e l2 -> cs_tid e = t -> In (t, (cs_c e, cs_m e)) (m13_acc m) -> In (t, (cs_c e, cs_m e)) a2 }.
+
+Section CFrame.
+  Variables (st st' : wstate) (m m' : m13).
+  Hypothesis R : CRel PNone st m.
+  Hypothesis M1 : m13_sends m' = m13_sends m.
+  Hypothesis M2 : m13_acc m' = m13_acc m.
+  Hypothesis M4 : m13_cbegun m' = m13_cbegun m.
+  Hypothesis M5 : m13_cdone m' = m13_cdone m.
+  Hypothesis M6 : m13_late m' = m13_late m.
+  Hypothesis M7 : m13_bad m' = false.
+  Hypothesis Hex : forall c, cexists (chs st' c) = cexists (chs st c).
+  Hypothesis Hop : forall c, copen (chs st' c) = true ->
+                   copen (chs st c) = true /\
+                   fwds m' c ++ transit st' c ++ cq (chs st' c) = fwds m c ++ transit st c ++ cq (chs st c).
+  Hypothesis Hfx : forall c x, In (c, x) (m13_fwd m') -> cexists (chs st' c) = true.
+  Hypothesis Hcl : forall c, copen (chs st c) = false -> copen (chs st' c) = false.
+  Hypothesis Hbg : forall c, copen (chs st c) = true -> copen (chs st' c) = false -> memZ c (m13_cbegun m) = true.
+  Hypothesis Hcur : forall u, tcur (thr st' u) = tcur (thr st u).
+  Hypothesis Hrs : forall u c x, tcur (thr st u) = Some (CSend c x) -> tret (thr st' u) = RBool true -> tret (thr st u) = RBool true.
+  Hypothesis Hrc : forall u c b, tcur (thr st u) = Some (CClosed c) -> tret (thr st' u) = RBool b ->
+                   tret (thr st u) = RBool b \/ exists m0, In (IUnlock m0 (URet (RBool b))) (tcont (thr st u)).
+  Hypothesis Hclose : forall u m0 c, tcur (thr st u) = Some (CCDrop c) -> In (ILock m0 (LChClose c)) (tcont (thr st u)) ->
+                      (exists m1, In (ILock m1 (LChClose c)) (tcont (thr st' u))) \/ copen (chs st' c) = false.
+  Hypothesis Huret : forall u c m0 b, tcur (thr st u) = Some (CClosed c) -> In (IUnlock m0 (URet (RBool b))) (tcont (thr st' u)) ->
+                     (exists m1, In (IUnlock m1 (URet (RBool b))) (tcont (thr st u))) \/ b = negb (copen (chs st c)).
+
+  Lemma cr_frame : CRel PNone st' m'.
+  Proof.
+    assert (Ac : forall c, accs m' c = accs m c) by (intro c; unfold accs; rewrite M2; reflexivity).
+    assert (Cl2 : forall c, copen (chs st c) = false /\ cexists (chs st c) = true -> copen (chs st' c) = false /\ cexists (chs st' c) = true).
+    { intros c [A B]. split; [apply Hcl; exact A|rewrite Hex; exact B]. }
+    constructor.
+    - exact M7.
+    - intros c Ho. destruct (Hop c Ho) as [A B]. rewrite Ac. pose proof (r_open _ st m R c A) as E.
+      rewrite E. symmetry. exact B.
+    - intros c. rewrite M5. intro H. apply Cl2. apply (r_done _ st m R c H).
+    - intros c. rewrite Hex. cbn [begun_of]. rewrite M4. intros E1 E2.
+      destruct (copen (chs st c)) eqn:Eo; [apply Hbg; auto|apply (r_begun _ st m R c E1 Eo)].
+    - intros u c x. rewrite M2, Hex. apply (r_ex_acc _ st m R).
+    - exact Hfx.
+    - intros u c x. rewrite M1, M2. apply (r_acc_sent _ st m R).
+    - rewrite M2. apply (r_acc_nd _ st m R).
+    - intros u l. rewrite M6. intro H. destruct (r_late_dom _ st m R u l H) as [c X]. exists c. rewrite Hcur. exact X.
+    - rewrite M6. apply (r_late_nd _ st m R).
+    - intros u c x. rewrite Hcur, M1, M2, M6. intro Hu.
+      destruct (r_send _ st m R u c x Hu) as [[l [l1 [l2 [S1 [S2 [S3 S4]]]]]] [S5 S6]].
+      split; [exists l, l1, l2; split; [exact S1|split; [exact S2|split; [exact S3|intro Hl; apply Cl2; apply S4; exact Hl]]]|].
+      split; [exact S5|]. intro Ht. apply S6. eapply Hrs; eauto.
+    - intros u c x H. discriminate H.
+    - intros u c. rewrite Hcur, M6. intro Hu.
+      destruct (r_closedcmd _ st m R u c Hu) as [l [L1 [L2 L3]]]. exists l. split; [exact L1|]. split; [intro Hl; apply Cl2; apply L2; exact Hl|].
+      intros b [[m0 Hin]|Hr] Hl.
+      + destruct (Huret u c m0 b Hu Hin) as [[m1 X]|X]; [apply (L3 b); [left; exists m1; exact X|exact Hl]|].
+        destruct (L2 Hl) as [Y _]. rewrite Y in X. exact X.
+      + destruct (Hrc u c b Hu Hr) as [X|[m0 X]]; apply (L3 b); auto. left. exists m0. exact X.
+    - intros u c. rewrite Hcur, M4, Hex. intro Hu.
+      destruct (r_dropcmd _ st m R u c Hu) as [[D _]|[D1 [D2 [D3 D4]]]]; [discriminate D|]. right.
+      split; [exact D1|]. split; [exact D2|]. split; [exact D3|].
+      destruct D4 as [[m0 D4]|D4]; [apply (Hclose u m0 c Hu D4)|right; apply Hcl; exact D4].
+    - intros c H. discriminate H.
+    - rewrite M1, M2. apply (r_ord _ st m R).
+  Qed.
+End CFrame.
+
+Lemma cr_frame_s : forall st st' m m',
+  CRel PNone st m -> m13_same m m' ->
+  (forall c, cexists (chs st' c) = cexists (chs st c)) ->
+  (forall c, copen (chs st' c) = true ->
+             copen (chs st c) = true /\ transit st' c ++ cq (chs st' c) = transit st c ++ cq (chs st c)) ->
+  (forall c, copen (chs st c) = false -> copen (chs st' c) = false) ->
+  (forall c, copen (chs st c) = true -> copen (chs st' c) = false -> memZ c (m13_cbegun m) = true) ->
+  (forall u, tcur (thr st' u) = tcur (thr st u)) ->
+  (forall u c x, tcur (thr st u) = Some (CSend c x) -> tret (thr st' u) = RBool true -> tret (thr st u) = RBool true) ->
+  (forall u c b, tcur (thr st u) = Some (CClosed c) -> tret (thr st' u) = RBool b ->
+                 tret (thr st u) = RBool b \/ exists m0, In (IUnlock m0 (URet (RBool b))) (tcont (thr st u))) ->
+  (forall u m0 c, tcur (thr st u) = Some (CCDrop c) -> In (ILock m0 (LChClose c)) (tcont (thr st u)) ->
+                  (exists m1, In (ILock m1 (LChClose c)) (tcont (thr st' u))) \/ copen (chs st' c) = false) ->
+  (forall u c m0 b, tcur (thr st u) = Some (CClosed c) -> In (IUnlock m0 (URet (RBool b))) (tcont (thr st' u)) ->
+                    (exists m1, In (IUnlock m1 (URet (RBool b))) (tcont (thr st u))) \/ b = negb (copen (chs st c))) ->
+  CRel PNone st' m'.
+Proof.
+  intros st st' m m' R [M1 M2 M3 M4 M5 M6 M7] Hex Hop Hcl Hbg Hcur Hrs Hrc Hclose Huret.
+  apply (cr_frame st st' m m' R M1 M2 M4 M5 M6); auto.
+  - rewrite M7. apply (r_bad _ st m R).
+  - intros c Ho. destruct (Hop c Ho) as [A B]. split; [exact A|]. unfold fwds. rewrite M3. f_equal. exact B.
+  - intros c x. rewrite M3, Hex. apply (r_ex_fwd _ st m R).
+Qed.
+
+(** a step of [t] that replaces the head [i] by [new], touches no channel record and emits only plain events *)
+Definition cr_quiet (j : instr) : Prop :=
+  (forall c, ufwd_of c j = []) /\ (forall m c, j <> ILock m (LChClose c)).
+
+Lemma cr_triv : forall st st' m t i r new ev,
+  CRel PNone st m ->
+  (forall u, tcur (thr st' u) = tcur (thr st u)) -> (forall u, tret (thr st' u) = tret (thr st u)) ->
+  (forall u, u <> t -> tcont (thr st' u) = tcont (thr st u)) ->
+  tcont (thr st t) = i :: r -> tcont (thr st' t) = new ++ r ->
+  (forall c, copen (chs st' c) = copen (chs st c) /\ cq (chs st' c) = cq (chs st c) /\ cexists (chs st' c) = cexists (chs st c)) ->
+  (forall e, In e ev -> c13_plain e) ->
+  (forall c, ufwd_of c i = []) -> (forall m0 c, i <> ILock m0 (LChClose c)) ->
+  (forall j, In j new -> cr_quiet j) ->
+  (forall c m0 b, tcur (thr st t) = Some (CClosed c) -> In (IUnlock m0 (URet (RBool b))) new -> b = negb (copen (chs st c))) ->
+  CRel PNone st' (fold_left m13_step (evs t ev) m).
+Proof.
+  intros st st' m t i r new ev R Hcur Hret Ho Hc Hc' Hch Hev Hi1 Hi2 Hnew Hcc.
+  assert (Tr : forall c, transit st' c = transit st c).
+  { intro c. unfold transit. destruct (Nat.eq_dec main t) as [E|E]; [|rewrite (Ho main E); reflexivity].
+    rewrite E, Hc, Hc'. cbn [flat_map]. rewrite Hi1, flat_map_app. cbn.
+    replace (flat_map (ufwd_of c) new) with (@nil Z); [reflexivity|]. symmetry. apply flat_map_nil. intros j Hj. apply (Hnew j Hj). }
+  apply (cr_frame_s st st' m _ R (m13_plain_fold t ev m Hev)).
+  - intro c. apply Hch.
+  - intros c Ho'. destruct (Hch c) as [A [B _]]. rewrite A in Ho'. split; [exact Ho'|]. rewrite Tr, B. reflexivity.
+  - intros c. destruct (Hch c) as [A _]. rewrite A. auto.
+  - intros c E1 E2. destruct (Hch c) as [A _]. congruence.
+  - exact Hcur.
+  - intros u c x _. rewrite Hret. auto.
+  - intros u c b _. rewrite Hret. auto.
+  - intros u m0 c _ Hin. left. exists m0. destruct (Nat.eq_dec u t) as [->|Hu]; [|rewrite (Ho u Hu); exact Hin].
+    rewrite Hc in Hin. rewrite Hc'. destruct Hin as [Hin|Hin]; [exfalso; eapply Hi2; eauto|]. apply in_or_app. auto.
+  - intros u c m0 b Hu0 Hin. destruct (Nat.eq_dec u t) as [->|Hu]; [|left; exists m0; rewrite (Ho u Hu) in Hin; exact Hin].
+    rewrite Hc' in Hin. apply in_app_or in Hin. destruct Hin as [Hin|Hin]; [right; eapply Hcc; eauto|].
+    left. exists m0. rewrite Hc. right. exact Hin.
+Qed.
+
+Lemma cr_msame : forall p st m m', CRel p st m -> m13_same m m' -> CRel p st m'.
+Proof.
+  intros p st m m' R [M1 M2 M3 M4 M5 M6 M7].
+  assert (Ac : forall c, accs m' c = accs m c) by (intro c; unfold accs; rewrite M2; reflexivity).
+  assert (Fc : forall c, fwds m' c = fwds m c) by (intro c; unfold fwds; rewrite M3; reflexivity).
+  assert (Bg : begun_of p m' = begun_of p m) by (unfold begun_of; rewrite M4; reflexivity).
+  constructor; intros; rewrite ?M1, ?M2, ?M3, ?M4, ?M5, ?M6, ?M7, ?Ac, ?Fc, ?Bg in *.
+  - apply (r_bad p st m R).
+  - apply (r_open p st m R); auto.
+  - apply (r_done p st m R); auto.
+  - apply (r_begun p st m R); auto.
+  - eapply (r_ex_acc p st m R); eauto.
+  - eapply (r_ex_fwd p st m R); eauto.
+  - eapply (r_acc_sent p st m R); eauto.
+  - apply (r_acc_nd p st m R).
+  - eapply (r_late_dom p st m R); eauto.
+  - apply (r_late_nd p st m R).
+  - eapply (r_send p st m R); eauto.
+  - eapply (r_pacc p st m R); eauto.
+  - eapply (r_closedcmd p st m R); eauto.
+  - eapply (r_dropcmd p st m R); eauto.
+  - eapply (r_pbad p st m R); eauto.
+  - eapply (r_ord p st m R); eauto.
+Qed.
+
+Lemma closed_head_lock : forall st t m a r c, ShInv st -> tcont (thr st t) = ILock m a :: r ->
+  tcur (thr st t) = Some (CClosed c) -> a = LChClosed c.
+Proof.
+  intros st t m a r c S Hc Hu. destruct (sh_closed st S t c Hu) as [[_ [E|[E|[b E]]]]|[E _]]; rewrite Hc in E; try discriminate E.
+  inversion E; reflexivity.
+Qed.
+
+Ltac cr_chs := let c0 := fresh "c0" in intro c0; cbn; unfold updZ;
+  repeat match goal with |- context [?a =? ?b] => destruct (Z.eqb_spec a b); subst end; cbn; repeat split; reflexivity.
+Ltac cr_pl := let e := fresh "e" in let He := fresh "He" in
+  intros e He; cbn in He; repeat (destruct He as [<-|He]); try contradiction; exact Logic.I.
+Ltac cr_new := let j := fresh "j" in let Hj := fresh "Hj" in
+  intros j Hj; in_cases Hj; (split; [intro; reflexivity|intros; discriminate]).
+Ltac crt st t i r new :=
+  apply (cr_triv st _ _ t i r new);
+  [ assumption | thr_simpl | thr_simpl | thr_simpl | eassumption | thr_simpl | cr_chs | cr_pl | intro; reflexivity
+  | intros; discriminate | cr_new
+  | let Hu := fresh in intros ? ? ? Hu ?; exfalso;
+    match goal with Hcc : forall c, tcur (thr st t) <> Some (CClosed c) |- _ => exact (Hcc _ Hu) end ].
+
+Ltac thr_impl := cbn -[Nat.eqb]; unfold updN, th; cbn -[Nat.eqb];
+  repeat match goal with |- context [Nat.eqb ?a ?b] => destruct (Nat.eqb_spec a b); subst end; cbn -[Nat.eqb]; auto; try congruence.
+
+Lemma exec_lact_C : forall st m13s t m a r st' ev,
+  ShInv st -> CRel PNone st m13s -> tcont (thr st t) = ILock m a :: r ->
+  exec_lact st t a r = (st', ev) -> CRel PNone st' (fold_left m13_step (evs t ev) m13s).
+Proof.
+  intros st ms t m a r st' ev S R Hc H.
+  assert (Hcc : forall a', a = a' -> (forall c, a' <> LChClosed c) -> forall c, tcur (thr st t) <> Some (CClosed c)).
+  { intros a' -> Hn c Hu. apply (Hn c). eapply closed_head_lock; eauto. }
+  destruct a; cbn [exec_lact] in H.
+  - pose proof (Hcc _ eq_refl ltac:(intros; discriminate)) as Hcc'.
+    destruct (climb_reserved st bm) as [i|] eqn:Ecl; inversion H; subst; clear H.
+    + apply climb_at_climb in Ecl. destruct Ecl as [k ->]. crt st t (ILock m (LPush bit bm who)) r [IClimb k; IUnlock MDL UNone].
+    + crt st t (ILock m (LPush bit bm who)) r [IUnlock MDL UNone].
+  - pose proof (Hcc _ eq_refl ltac:(intros; discriminate)) as Hcc'.
+    unfold ghost_handler in H. inversion H; subst; clear H. crt st t (ILock m LTake) r [IUnlock MDL (UDels (dl st))].
+  - pose proof (Hcc _ eq_refl ltac:(intros; discriminate)) as Hcc'.
+    inversion H; subst; clear H. crt st t (ILock m (LChInit c)) r [IUnlock (MCh c) (UChReg c)].
+  - pose proof (Hcc _ eq_refl ltac:(intros; discriminate)) as Hcc'.
+    destr_all H; repeat match goal with E : climb_start _ _ _ = Some _ |- _ => apply climb_at_climb in E; destruct E as [? ->] end;
+      inversion H; subst; clear H.
+    + crt st t (ILock m (LChSend c m0)) r [IClimb x; IUnlock (MCh c) (UChPush c m0)].
+    + crt st t (ILock m (LChSend c m0)) r [IUnlock (MCh c) (UChPush c m0)].
+    + crt st t (ILock m (LChSend c m0)) r [IUnlock (MCh c) (UChPush c m0)].
+    + crt st t (ILock m (LChSend c m0)) r [IUnlock (MCh c) (URet (RBool false))].
+  - (* LChClosed *)
+    inversion H; subst; clear H.
+    apply (cr_triv st _ _ t (ILock m (LChClosed c)) r [IUnlock (MCh c) (URet (RBool (negb (copen (chs st c)))))]);
+      [assumption|thr_simpl|thr_simpl|thr_simpl|eassumption|thr_simpl|cr_chs|cr_pl|intro; reflexivity|intros; discriminate|cr_new|].
+    intros c1 m1 b1 Hu1 [E|[]]. inversion E; subst b1.
+    assert (Hu : tcur (thr st t) = Some (CClosed c)) by (apply (sh_own_lc st S t m c); rewrite Hc; left; reflexivity).
+    congruence.
+  - (* LChClose *)
+    assert (Hu : tcur (thr st t) = Some (CCDrop c)) by (apply (sh_own_close st S t m c); rewrite Hc; left; reflexivity).
+    assert (Hr : r = [] /\ t = main).
+    { destruct (sh_drop st S t c Hu) as [_ [E|[Tm [_ [E|[_ Nc]]]]]]; try (rewrite Hc in E; discriminate E).
+      - rewrite Hc in E. inversion E. auto.
+      - exfalso. exact (Nc (ILock m (LChClose c)) ltac:(rewrite Hc; left; reflexivity)). }
+    destruct Hr as [-> ->].
+    destruct (r_dropcmd _ st ms R main c Hu) as [[D _]|[_ [Dm [Dx _]]]]; [discriminate D|].
+    destruct (copen (chs st c)) eqn:Eo; inversion H; subst; clear H.
+    + match goal with |- CRel _ ?S' _ => set (st' := S') end. cbn [evs map fold_left].
+      assert (Tr : forall c0, transit st' c0 = [] /\ transit st c0 = []).
+      { intro c0. unfold transit, st'. cbn -[Nat.eqb]. unfold updN, th. cbn. rewrite Hc. cbn. auto. }
+      apply (cr_frame_s st st' ms ms R (m13_same_refl ms)).
+      * intro c0. unfold st'. cbn. unfold updZ. destruct (Z.eqb_spec c0 c); subst; reflexivity.
+      * intros c0. unfold st'. cbn. unfold updZ. destruct (Z.eqb_spec c0 c); subst; cbn; [discriminate|].
+        intro Ho'. split; [exact Ho'|]. rewrite (proj2 (Tr c0)). reflexivity.
+      * intros c0. unfold st'. cbn. unfold updZ. destruct (Z.eqb_spec c0 c); subst; cbn; auto.
+      * intros c0 E1. unfold st'. cbn. unfold updZ. destruct (Z.eqb_spec c0 c); subst; cbn; [intros _; exact Dm|congruence].
+      * unfold st'. thr_simpl.
+      * intros u c1 x1 _. unfold st'. thr_impl.
+      * intros u c1 b1 _. unfold st'. thr_impl.
+      * intros u m0 c1 Hu1 Hin. destruct (Nat.eq_dec u main) as [->|Nu].
+        -- right. rewrite Hu in Hu1. inversion Hu1; subst c1. unfold st'. cbn. unfold updZ. rewrite Z.eqb_refl. reflexivity.
+        -- left. exists m0. unfold st'. cbn -[Nat.eqb]. unfold updN, th. destruct (Nat.eqb_spec u main); [congruence|exact Hin].
+      * intros u c1 m0 b1 Hu1 Hin. left. exists m0. destruct (Nat.eq_dec u main) as [->|Nu]; [congruence|].
+        revert Hin. unfold st'. cbn -[Nat.eqb]. unfold updN, th. destruct (Nat.eqb_spec u main); [congruence|auto].
+    + assert (Hcc' : forall c1, tcur (thr st main) <> Some (CClosed c1)) by congruence.
+      apply (cr_frame_s st _ ms _ R (m13_same_refl ms)).
+      * intro c0. reflexivity.
+      * intros c0 Ho'. split; [exact Ho'|]. unfold transit. cbn -[Nat.eqb]. unfold updN, th. cbn. rewrite Hc. reflexivity.
+      * auto.
+      * intros c0 E1 E2. cbn in E2. congruence.
+      * thr_simpl.
+      * intros u c1 x1 _. thr_impl.
+      * intros u c1 b1 _. thr_impl.
+      * intros u m0 c1 Hu1 Hin. destruct (Nat.eq_dec u main) as [->|Nu].
+        -- right. rewrite Hu in Hu1. inversion Hu1; subst c1. exact Eo.
+        -- left. exists m0. cbn -[Nat.eqb]. unfold updN, th. destruct (Nat.eqb_spec u main); [congruence|exact Hin].
+      * intros u c1 m0 b1 Hu1 Hin. left. exists m0. destruct (Nat.eq_dec u main) as [->|Nu]; [exfalso; exact (Hcc' _ Hu1)|].
+        revert Hin. cbn -[Nat.eqb]. unfold updN, th. destruct (Nat.eqb_spec u main); [congruence|auto].
+  - (* LChHandler *)
+    assert (Tm : t = main) by (apply (sh_own_h st S t m c del); rewrite Hc; left; reflexivity). subst t.
+    destruct (sh_plain_cmds st main (ILock m (LChHandler c del)) r S Hc Logic.I) as [Cs Cc].
+    pose proof (fun c0 => sh_ufwd_head st S main _ r c0 Hc) as Tr0.
+    unfold ghost_handler in H. inversion H; subst; clear H.
+    match goal with |- CRel _ ?S' _ => set (st' := S') end.
+    assert (Ev : m13_same ms (fold_left m13_step (evs main [EHandler (HChan c) del; EPub (HChan c) (ovleb (gcol st (HChan c)) (tclk (th st main)))]) ms))
+      by (apply m13_plain_fold; cr_pl).
+    assert (Tc : tcont (thr st' main) = [IUnlock (MCh c) (UFwd c (if copen (chs st c) then cq (chs st c) else []))] ++ r)
+      by (unfold st'; destruct del; thr_simpl).
+    assert (To : forall u, u <> main -> tcont (thr st' u) = tcont (thr st u)) by (unfold st'; destruct del; thr_simpl).
+    assert (Chs : forall c0, chs st' c0 = if c0 =? c then mkChan (cexists (chs st c)) (Waker.creg (chs st c)) (cguard (chs st c)) (copen (chs st c)) [] (cw (chs st c)) else chs st c0).
+    { intro c0. unfold st'. destruct del; cbn; unfold updZ; destruct (Z.eqb_spec c0 c); subst; reflexivity. }
+    apply (cr_frame_s st st' ms _ R Ev).
+    + intro c0. rewrite Chs. destruct (Z.eqb_spec c0 c); subst; reflexivity.
+    + intros c0. rewrite Chs. unfold transit. rewrite Tc, Hc. cbn [app flat_map ufwd_of]. rewrite (Tr0 c0), !app_nil_r.
+      destruct (Z.eqb_spec c0 c) as [->|N].
+      * cbn. rewrite Z.eqb_refl. intro Ho'. rewrite Ho'. split; [reflexivity|]. rewrite app_nil_r. reflexivity.
+      * intro Ho'. split; [exact Ho'|]. destruct (Z.eqb_spec c c0); [congruence|reflexivity].
+    + intros c0. rewrite Chs. destruct (Z.eqb_spec c0 c); subst; auto.
+    + intros c0 E1. rewrite Chs. destruct (Z.eqb_spec c0 c); subst; cbn; congruence.
+    + unfold st'. destruct del; thr_simpl.
+    + intros u c1 x1 _. unfold st'. destruct del; thr_impl.
+    + intros u c1 b1 _. unfold st'. destruct del; thr_impl.
+    + intros u m0 c1 Hu1 Hin. left. exists m0. destruct (Nat.eq_dec u main) as [->|Nu]; [|rewrite (To u Nu); exact Hin].
+      rewrite Tc. rewrite Hc in Hin. destruct Hin as [Hin|Hin]; [discriminate Hin|]. right. exact Hin.
+    + intros u c1 m0 b1 Hu1 Hin. left. exists m0. destruct (Nat.eq_dec u main) as [->|Nu]; [exfalso; exact (Cc _ Hu1)|].
+      rewrite (To u Nu) in Hin. exact Hin.
+  - pose proof (Hcc _ eq_refl ltac:(intros; discriminate)) as Hcc'.
+    unfold ghost_handler in H. inversion H; subst; clear H.
+    destruct del; [crt st t (ILock m (LPqHandler p true)) r [IUnlock (MPq p) (UPqFwd p (precvq (pps st p)) (Some (ppanic (pps st p))))]
+                  |crt st t (ILock m (LPqHandler p false)) r [IUnlock (MPq p) (UPqFwd p (precvq (pps st p)) None)]].
+  - pose proof (Hcc _ eq_refl ltac:(intros; discriminate)) as Hcc'.
+    destr_all H; inversion H; subst; clear H.
+    + crt st t (ILock m (LPqSend p m0)) r [IUnlock (MPq p) UNone; INotify p].
+    + crt st t (ILock m (LPqSend p m0)) r [IUnlock (MPq p) UNone].
+  - pose proof (Hcc _ eq_refl ltac:(intros; discriminate)) as Hcc'.
+    inversion H; subst; clear H. crt st t (ILock m (LPqCancelSet p)) r [IUnlock (MPq p) UNone; INotify p].
+  - pose proof (Hcc _ eq_refl ltac:(intros; discriminate)) as Hcc'.
+    destr_all H; inversion H; subst; clear H.
+    + crt st t (ILock m (LPqRecv p)) r [IUnlock (MPq p) (URet RNoneV)].
+    + crt st t (ILock m (LPqRecv p)) r [ICvWait p; ICvReacq p].
+    + crt st t (ILock m (LPqRecv p)) r [IUnlock (MPq p) (URet (RVal z))].
+  - pose proof (Hcc _ eq_refl ltac:(intros; discriminate)) as Hcc'.
+    inversion H; subst; clear H.
+    destruct (precvq (pps st p)).
+    + destruct (climb_start st (pw (pps st p)) (Some (HPipe p))) as [i|] eqn:E; cbn [olist app].
+      * apply climb_at_climb in E. destruct E as [k ->].
+        crt st t (ILock m (LPqLSend p m0)) r [IUnlock (MPq p) (URet (RBool (negb (pcancel (pps st p))))); IClimb k].
+      * crt st t (ILock m (LPqLSend p m0)) r [IUnlock (MPq p) (URet (RBool (negb (pcancel (pps st p)))))].
+    + crt st t (ILock m (LPqLSend p m0)) r [IUnlock (MPq p) (URet (RBool (negb (pcancel (pps st p)))))].
+  - pose proof (Hcc _ eq_refl ltac:(intros; discriminate)) as Hcc'.
+    inversion H; subst; clear H. crt st t (ILock m (LPqCancelGet p)) r [IUnlock (MPq p) (URet (RBool (pcancel (pps st p))))].
+  - pose proof (Hcc _ eq_refl ltac:(intros; discriminate)) as Hcc'.
+    inversion H; subst; clear H. crt st t (ILock m (LPqPanic p)) r [IUnlock (MPq p) UNone].
+Qed.
+
+(** ** lists of the monitor *)
+Definition accf (c : Z) (a : tid * (Z * Z)) : list Z := if fst (snd a) =? c then [snd (snd a)] else [].
+Definition fwdf (c : Z) (p : Z * Z) : list Z := if fst p =? c then [snd p] else [].
+Lemma accs_eq : forall m c, accs m c = rev (flat_map (accf c) (m13_acc m)).
+Proof. reflexivity. Qed.
+Lemma fwds_eq : forall m c, fwds m c = rev (flat_map (fwdf c) (m13_fwd m)).
+Proof. reflexivity. Qed.
+
+Lemma pairZ_eqb_eq : forall x y, pairZ_eqb x y = true <-> x = y.
+Proof.
+  intros [a b] [a' b']. unfold pairZ_eqb. cbn. rewrite andb_true_iff, !Z.eqb_eq. split; [intros [-> ->]; reflexivity|intro E; inversion E; auto].
+Qed.
+Lemma mem_pair_In : forall x l, mem_pair x l = true <-> In x l.
+Proof.
+  intros x l. unfold mem_pair. rewrite existsb_exists. split.
+  - intros [y [Hy E]]. apply pairZ_eqb_eq in E. subst. exact Hy.
+  - intro H. exists x. split; [exact H|apply pairZ_eqb_eq; reflexivity].
+Qed.
+Lemma mem_acc_In : forall t x l, mem_acc t x l = true <-> In (t, x) l.
+Proof.
+  intros t x l. unfold mem_acc. rewrite existsb_exists. split.
+  - intros [[u y] [Hy E]]. cbn in E. apply andb_true_iff in E. destruct E as [E1 E2]. apply Nat.eqb_eq in E1. apply pairZ_eqb_eq in E2. subst. exact Hy.
+  - intro H. exists (t, x). split; [exact H|]. cbn. rewrite Nat.eqb_refl. apply pairZ_eqb_eq. reflexivity.
+Qed.
+Lemma in_fm_acc : forall c x l, In x (flat_map (accf c) l) <-> exists t, In (t, (c, x)) l.
+Proof.
+  intros c x l. rewrite in_flat_map. split.
+  - intros [[t [c' y]] [Ha Hx]]. unfold accf in Hx. cbn in Hx. destruct (Z.eqb_spec c' c); [|destruct Hx]. destruct Hx as [<-|[]]. subst. eauto.
+  - intros [t H]. exists (t, (c, x)). split; [exact H|]. unfold accf. cbn. rewrite Z.eqb_refl. left. reflexivity.
+Qed.
+Lemma in_fm_fwd : forall c x l, In x (flat_map (fwdf c) l) <-> In (c, x) l.
+Proof.
+  intros c x l. rewrite in_flat_map. split.
+  - intros [[c' y] [Ha Hx]]. unfold fwdf in Hx. cbn in Hx. destruct (Z.eqb_spec c' c); [|destruct Hx]. destruct Hx as [<-|[]]. subst. exact Ha.
+  - intro H. exists (c, x). split; [exact H|]. unfold fwdf. cbn. rewrite Z.eqb_refl. left. reflexivity.
+Qed.
+Lemma nodup_fm_acc : forall c l, NoDup (map snd l) -> NoDup (flat_map (accf c) l).
+Proof.
+  induction l as [|[t [c' y]] l IH]; intro H; [constructor|]. cbn [map snd] in H. inversion H; subst.
+  cbn [flat_map]. unfold accf at 1. cbn. destruct (Z.eqb_spec c' c) as [->|N]; [|apply IH; assumption].
+  cbn. constructor; [|apply IH; assumption]. intro Hin. apply in_fm_acc in Hin. destruct Hin as [t' Hin].
+  apply H2. change (c, y) with (snd (t', (c, y))). apply in_map. exact Hin.
+Qed.
+Lemma nodup_split_unique : forall A (a a' b b' : list A) x,
+  NoDup (a ++ x :: b) -> a ++ x :: b = a' ++ x :: b' -> a = a' /\ b = b'.
+Proof.
+  intros A a. induction a as [|y a IH]; intros a' b b' x Hn E.
+  - destruct a' as [|y' a']; cbn in E.
+    + injection E as E. auto.
+    + exfalso. injection E as E1 E2. subst y'. cbn in Hn. inversion Hn as [|? ? Hni _]. apply Hni. rewrite E2.
+      apply in_or_app. right. left. reflexivity.
+  - destruct a' as [|y' a']; cbn in E.
+    + exfalso. injection E as E1 E2. subst y. cbn in Hn. inversion Hn as [|? ? Hni _]. apply Hni.
+      apply in_or_app. right. left. reflexivity.
+    + injection E as E1 E2. subst y'. cbn in Hn. inversion Hn as [|? ? _ Hn'].
+      destruct (IH a' b b' x Hn' E2) as [X Y]. split; [f_equal; exact X|exact Y].
+Qed.
+Lemma sends_before_spec : forall c x l l1 s l2,
+  NoDup (map sk l) -> l = l1 ++ s :: l2 -> sk s = (c, x) -> sends_before c x l = Some (cs_tid s, l2).
+Proof.
+  intros c x l l1. revert l. induction l1 as [|e l1 IH]; intros l s l2 Hn E Hk; subst l.
+  - cbn. unfold sk in Hk. inversion Hk; subst. rewrite !Z.eqb_refl. reflexivity.
+  - cbn [app sends_before]. cbn [app map] in Hn. inversion Hn; subst.
+    destruct ((cs_c e =? c) && (cs_m e =? x)) eqn:Eb.
+    + exfalso. apply andb_true_iff in Eb. destruct Eb as [E1 E2]. apply Z.eqb_eq in E1, E2. apply H1.
+      rewrite map_app. apply in_or_app. right. left. unfold sk at 2. rewrite Hk. unfold sk. subst. reflexivity.
+    + apply IH; auto.
+Qed.
+
+(** the handler forwards the taken messages: the monitor accepts each of them *)
+Definition order_ok (m : m13) (c : Z) (s : tid) (e : csend) : bool :=
+  negb (Nat.eqb (cs_tid e) s) || negb (cs_c e =? c) || negb (mem_acc s (c, cs_m e) (m13_acc m)) || mem_pair (c, cs_m e) (m13_fwd m).
+Lemma m13_fwd_step : forall ms t c x,
+  m13_step ms (t, EFwd c x) =
+  mkM13 (mb_step (m13_b ms) (t, EFwd c x)) (m13_sends ms) (m13_acc ms) ((c, x) :: m13_fwd ms) (m13_cbegun ms) (m13_cdone ms)
+        (m13_late ms)
+        (m13_bad ms || mem_pair (c, x) (m13_fwd ms) || memZ c (m13_cdone ms) ||
+         match sends_before c x (m13_sends ms) with
+         | None => true
+         | Some (s, earlier) => negb (forallb (order_ok ms c s) earlier)
+         end).
+Proof. reflexivity. Qed.
+
+Lemma fm_acc_split : forall c a1 s x a2,
+  rev (flat_map (accf c) (a1 ++ (s, (c, x)) :: a2)) = rev (flat_map (accf c) a2) ++ x :: rev (flat_map (accf c) a1).
+Proof.
+  intros. rewrite flat_map_app. cbn [flat_map]. unfold accf at 2. cbn. rewrite Z.eqb_refl. cbn.
+  rewrite rev_app_distr. cbn. rewrite <- app_assoc. reflexivity.
+Qed.
+
+Lemma fwd_batch : forall c post ms0 rest,
+  m13_bad ms0 = false -> memZ c (m13_cdone ms0) = false ->
+  NoDup (map sk (m13_sends ms0)) -> NoDup (map snd (m13_acc ms0)) ->
+  (forall t c x, In (t, (c, x)) (m13_acc ms0) -> exists l, In (mkCS t c x l) (m13_sends ms0)) ->
+  (forall a1 t c x a2, m13_acc ms0 = a1 ++ (t, (c, x)) :: a2 ->
+     forall l l1 l2, m13_sends ms0 = l1 ++ mkCS t c x l :: l2 ->
+     forall e, In e l2 -> cs_tid e = t -> In (t, (cs_c e, cs_m e)) (m13_acc ms0) -> In (t, (cs_c e, cs_m e)) a2) ->
+  accs ms0 c = fwds ms0 c ++ post ++ rest ->
+  let ms1 := fold_left m13_step (evs main (map (EFwd c) post)) ms0 in
+  m13_bad ms1 = false /\ m13_fwd ms1 = rev (map (fun x => (c, x)) post) ++ m13_fwd ms0 /\
+  m13_sends ms1 = m13_sends ms0 /\ m13_acc ms1 = m13_acc ms0 /\ m13_cbegun ms1 = m13_cbegun ms0 /\
+  m13_cdone ms1 = m13_cdone ms0 /\ m13_late ms1 = m13_late ms0.
+Proof.
+  intros c post. induction post as [|x post IH]; intros ms0 rest Hb Hd Hns Hna Hsent Hord Heq; cbn zeta.
+  - cbn. repeat split; auto.
+  - cbn [map evs fold_left]. fold (evs main (map (EFwd c) post)).
+    set (ms' := m13_step ms0 (main, EFwd c x)).
+    assert (Nacc : NoDup (accs ms0 c)) by (rewrite accs_eq; apply NoDup_rev; apply nodup_fm_acc; exact Hna).
+    assert (Hx : In x (accs ms0 c)) by (rewrite Heq; apply in_or_app; right; left; reflexivity).
+    rewrite accs_eq, <- in_rev in Hx. apply in_fm_acc in Hx. destruct Hx as [s Hs].
+    destruct (Hsent s c x Hs) as [l Hl]. apply in_split in Hl. destruct Hl as [l1 [l2 El]].
+    apply in_split in Hs. destruct Hs as [a1 [a2 Ea]].
+    assert (Heq' : accs ms0 c = fwds ms0 c ++ x :: (post ++ rest)) by (rewrite Heq; reflexivity).
+    assert (Dup : mem_pair (c, x) (m13_fwd ms0) = false).
+    { destruct (mem_pair (c, x) (m13_fwd ms0)) eqn:E; [|reflexivity]. exfalso. apply mem_pair_In in E.
+      apply in_fm_fwd in E. rewrite in_rev in E. rewrite <- fwds_eq in E.
+      rewrite Heq' in Nacc. apply NoDup_remove_2 in Nacc. apply Nacc. apply in_or_app. left. exact E. }
+    assert (Pre : rev (flat_map (accf c) a2) = fwds ms0 c).
+    { pose proof (accs_eq ms0 c) as A. rewrite Ea, fm_acc_split in A. rewrite A in Nacc, Heq'.
+      destruct (nodup_split_unique _ _ _ _ _ _ Nacc Heq') as [X _]. exact X. }
+    assert (Ord : match sends_before c x (m13_sends ms0) with
+                  | None => true
+                  | Some (s0, earlier) => negb (forallb (order_ok ms0 c s0) earlier)
+                  end = false).
+    { rewrite (sends_before_spec c x _ l1 (mkCS s c x l) l2 Hns El eq_refl). cbn [cs_tid].
+      apply negb_false_iff. apply forallb_forall. intros e He. unfold order_ok.
+      destruct (Nat.eqb_spec (cs_tid e) s) as [Et|]; [|reflexivity]. cbn [negb orb].
+      destruct (Z.eqb_spec (cs_c e) c) as [Ec|]; [|reflexivity]. cbn [negb orb].
+      destruct (mem_acc s (c, cs_m e) (m13_acc ms0)) eqn:Em; [|reflexivity]. cbn [negb orb].
+      apply mem_acc_In in Em. apply mem_pair_In. apply in_fm_fwd. rewrite in_rev, <- fwds_eq, <- Pre, <- in_rev.
+      apply in_fm_acc. exists s. rewrite <- Ec.
+      apply (Hord a1 s c x a2 Ea l l1 l2 El e He Et). rewrite Ec. exact Em. }
+    assert (F' : m13_bad ms' = false /\ m13_fwd ms' = (c, x) :: m13_fwd ms0 /\ m13_sends ms' = m13_sends ms0 /\
+                 m13_acc ms' = m13_acc ms0 /\ m13_cbegun ms' = m13_cbegun ms0 /\ m13_cdone ms' = m13_cdone ms0 /\
+                 m13_late ms' = m13_late ms0).
+    { unfold ms'. rewrite m13_fwd_step. cbn [m13_bad m13_fwd m13_sends m13_acc m13_cbegun m13_cdone m13_late].
+      rewrite Hb, Dup, Hd, Ord. repeat split; reflexivity. }
+    destruct F' as [B1 [B2 [B3 [B4 [B5 [B6 B7]]]]]].
+    destruct (IH ms' rest) as [C1 [C2 [C3 [C4 [C5 [C6 C7]]]]]].
+    + exact B1.
+    + rewrite B6. exact Hd.
+    + rewrite B3. exact Hns.
+    + rewrite B4. exact Hna.
+    + intros t0 c0 x0. rewrite B3, B4. apply Hsent.
+    + intros a1' t0 c0 x0 a2'. rewrite B3, B4. apply Hord.
+    + rewrite accs_eq, B4, <- accs_eq, fwds_eq, B2. cbn [flat_map]. unfold fwdf at 1. cbn. rewrite Z.eqb_refl. cbn.
+      rewrite <- fwds_eq, Heq, <- !app_assoc. reflexivity.
+    + cbn zeta in *. split; [exact C1|]. split; [rewrite C2, B2; cbn [map rev]; rewrite <- app_assoc; reflexivity|].
+      repeat split; congruence.
+Qed.
+
+(** the push of an accepted message: the monitor will see the acceptance at the end of this step *)
+Lemma cr_push : forall st st' ms t c x,
+  CRel PNone st ms -> tcur (thr st t) = Some (CSend c x) -> copen (chs st c) = true ->
+  (forall u, tcur (thr st' u) = tcur (thr st u)) -> (forall u, u <> t -> thr st' u = thr st u) ->
+  tcont (thr st' t) = [] -> tret (thr st' t) = RBool true ->
+  (forall c0, copen (chs st' c0) = copen (chs st c0) /\ cexists (chs st' c0) = cexists (chs st c0) /\
+              cq (chs st' c0) = if c0 =? c then cq (chs st c) ++ [x] else cq (chs st c0)) ->
+  (forall c0, transit st' c0 = transit st c0) ->
+  CRel (PAcc t c x) st' ms.
+Proof.
+  intros st st' ms t c x R Hu Ho Hcur Hoth Hk Hr Hch Htr.
+  assert (Fl : forall c0, copen (chs st' c0) = copen (chs st c0) /\ cexists (chs st' c0) = cexists (chs st c0)).
+  { intro c0. destruct (Hch c0) as [A [B _]]. auto. }
+  constructor.
+  - apply (r_bad _ st ms R).
+  - intros c0. destruct (Hch c0) as [A [_ D]]. rewrite A, D, Htr. intro Ho0. pose proof (r_open _ st ms R c0 Ho0) as E.
+    cbn [pendm] in *. rewrite app_nil_r in E. rewrite (Z.eqb_sym c c0). destruct (Z.eqb_spec c0 c) as [->|N].
+    + rewrite E, <- !app_assoc. reflexivity.
+    + rewrite app_nil_r. exact E.
+  - intros c0. destruct (Fl c0) as [A B]. rewrite A, B. apply (r_done _ st ms R).
+  - intros c0. destruct (Fl c0) as [A B]. rewrite A, B. apply (r_begun _ st ms R).
+  - intros u c0 x0. destruct (Fl c0) as [_ B]. rewrite B. apply (r_ex_acc _ st ms R).
+  - intros c0 x0. destruct (Fl c0) as [_ B]. rewrite B. apply (r_ex_fwd _ st ms R).
+  - apply (r_acc_sent _ st ms R).
+  - apply (r_acc_nd _ st ms R).
+  - intros u l H. destruct (r_late_dom _ st ms R u l H) as [c0 X]. exists c0. rewrite Hcur. exact X.
+  - apply (r_late_nd _ st ms R).
+  - intros u c1 x1. rewrite Hcur. destruct (Fl c1) as [A B]. rewrite A, B. intro Hu1.
+    destruct (r_send _ st ms R u c1 x1 Hu1) as [S1 [S2 S3]]. split; [exact S1|]. split; [exact S2|].
+    destruct (Nat.eq_dec u t) as [->|Nu]; [intros _; congruence|].
+    rewrite (Hoth u Nu). intro Ht. discriminate (S3 Ht).
+  - intros u c1 x1 E. inversion E; subst u c1 x1. rewrite Hcur. destruct (Fl c) as [A _]. rewrite A. auto.
+  - intros u c1. rewrite Hcur. destruct (Fl c1) as [A B]. rewrite A, B. intro Hu1.
+    assert (Nu : u <> t) by (intro E; subst u; congruence). rewrite (Hoth u Nu). apply (r_closedcmd _ st ms R u c1 Hu1).
+  - intros u c1. rewrite Hcur. destruct (Fl c1) as [A B]. rewrite A, B. intro Hu1.
+    assert (Nu : u <> t) by (intro E; subst u; congruence). rewrite (Hoth u Nu).
+    destruct (r_dropcmd _ st ms R u c1 Hu1) as [[D _]|[_ D]]; [discriminate D|]. right. split; [discriminate|exact D].
+  - intros c1 E. discriminate E.
+  - apply (r_ord _ st ms R).
+Qed.
+
+Lemma fm_fwd_map : forall c c0 msgs, flat_map (fwdf c0) (map (fun x => (c, x)) msgs) = if c =? c0 then msgs else [].
+Proof.
+  intros c c0 msgs. induction msgs as [|x msgs IH]; [destruct (c =? c0); reflexivity|].
+  cbn [map flat_map]. rewrite IH. unfold fwdf. cbn. destruct (c =? c0); reflexivity.
+Qed.
+Lemma flat_map_rev : forall A B (f : A -> list B) l, (forall a, length (f a) <= 1)%nat -> flat_map f (rev l) = rev (flat_map f l).
+Proof.
+  intros A B f l Hf. induction l as [|a l IH]; [reflexivity|]. cbn [rev flat_map]. rewrite flat_map_app, IH, rev_app_distr. cbn [flat_map].
+  rewrite app_nil_r. f_equal. specialize (Hf a). destruct (f a) as [|b [|b' k]]; cbn in *; try reflexivity. lia.
+Qed.
+Lemma fm_fwd_batch : forall c c0 msgs,
+  rev (flat_map (fwdf c0) (rev (map (fun x => (c, x)) msgs))) = if c =? c0 then msgs else [].
+Proof.
+  intros c c0 msgs. rewrite flat_map_rev, rev_involutive; [apply fm_fwd_map|].
+  intros [a b]. unfold fwdf. cbn. destruct (a =? c0); cbn; lia.
+Qed.
+
+Lemma closed_head_unlock : forall st t m a r c, ShInv st -> tcont (thr st t) = IUnlock m a :: r ->
+  tcur (thr st t) = Some (CClosed c) -> exists b, a = URet (RBool b).
+Proof.
+  intros st t m a r c S Hc Hu. destruct (sh_closed st S t c Hu) as [[_ [E|[E|[b E]]]]|[E _]]; rewrite Hc in E; try discriminate E.
+  inversion E. eauto.
+Qed.
+
+Lemma closed_head_unlock_not : forall st t m a r, ShInv st -> tcont (thr st t) = IUnlock m a :: r ->
+  (forall b, a <> URet (RBool b)) -> (forall c, tcur (thr st t) <> Some (CClosed c)) /\ True.
+Proof.
+  intros st t m a r S Hc Hn. split; [|exact Logic.I]. intros c Hu. destruct (closed_head_unlock st t m a r c S Hc Hu) as [b E]. exact (Hn b E).
+Qed.
+
+Lemma exec_uact_C : forall st ms t m a r st' ev,
+  ShInv st -> ChInv st -> CRel PNone st ms -> tcont (thr st t) = IUnlock m a :: r ->
+  NoDup (map sk (m13_sends ms)) ->
+  exec_uact st t a r = (st', ev) ->
+  exists p', CRel p' st' (fold_left m13_step (evs t ev) ms) /\ (p' = PNone \/ exists c x, p' = PAcc t c x).
+Proof.
+  intros st ms t m a r st' ev S C R Hc Nd H.
+  assert (Hcc : forall a', a = a' -> (forall b, a' <> URet (RBool b)) -> forall c, tcur (thr st t) <> Some (CClosed c)).
+  { intros a' -> Hn c Hu. destruct (closed_head_unlock st t m _ r c S Hc Hu) as [b E]. exact (Hn b E). }
+  destruct a; cbn [exec_uact] in H; inversion H; subst; clear H.
+  - pose proof (Hcc _ eq_refl ltac:(intros; discriminate)) as Hcc'. exists PNone. split; [|auto].
+    crt st t (IUnlock m UNone) r (@nil instr).
+  - (* URet *)
+    exists PNone. split; [|auto]. cbn [evs map fold_left].
+    apply (cr_frame_s st _ ms ms R (m13_same_refl ms)).
+    + intro c0. reflexivity.
+    + intros c0 Ho'. split; [exact Ho'|]. unfold transit. cbn -[Nat.eqb]. unfold updN, th.
+      destruct (Nat.eqb_spec main t) as [E|E]; cbn; [|reflexivity]. subst t. rewrite Hc. reflexivity.
+    + auto.
+    + intros c0 E1 E2. cbn in E2. congruence.
+    + thr_simpl.
+    + intros u c1 x1 Hu1. cbn -[Nat.eqb]. unfold updN, th. destruct (Nat.eqb_spec u t) as [->|Nu]; rewrite ?Nat.eqb_refl; cbn; [|auto].
+      intro Ev. exfalso.
+      destruct (sh_send st S t c1 x1 Hu1) as [[T [E|Sh]]|[E _]]; try (rewrite Hc in E; discriminate).
+      rewrite Hc in Sh. destruct (send_head _ _ _ _ Sh) as [[k E]|[[E _]|[[E _]|[E _]]]]; try discriminate E.
+      inversion E; congruence.
+    + intros u c1 b1 Hu1. cbn -[Nat.eqb]. unfold updN, th. destruct (Nat.eqb_spec u t) as [->|Nu]; rewrite ?Nat.eqb_refl; cbn; [|auto].
+      intro Ev. right. exists m. rewrite Hc. left. rewrite Ev. reflexivity.
+    + intros u m0 c1 Hu1 Hin. left. exists m0. cbn -[Nat.eqb]. unfold updN, th. destruct (Nat.eqb_spec u t) as [->|Nu]; rewrite ?Nat.eqb_refl; cbn; [|exact Hin].
+      rewrite Hc in Hin. destruct Hin as [Hin|Hin]; [discriminate Hin|exact Hin].
+    + intros u c1 m0 b1 Hu1 Hin. left. exists m0. revert Hin. cbn -[Nat.eqb]. unfold updN, th.
+      destruct (Nat.eqb_spec u t) as [->|Nu]; rewrite ?Nat.eqb_refl; cbn; [|auto]. intro Hin. rewrite Hc. right. exact Hin.
+  - pose proof (Hcc _ eq_refl ltac:(intros; discriminate)) as Hcc'. exists PNone. split; [|auto].
+    crt st t (IUnlock m (UDels l)) r [IDels l].
+  - pose proof (Hcc _ eq_refl ltac:(intros; discriminate)) as Hcc'. exists PNone. split; [|auto].
+    crt st t (IUnlock m (UChReg c)) r (@nil instr).
+  - (* UChPush *)
+    assert (Hu : tcur (thr st t) = Some (CSend c m0)) by (apply (sh_own_push st S t m c m0); rewrite Hc; left; reflexivity).
+    assert (Hr : r = []).
+    { destruct (sh_send st S t c m0 Hu) as [[T [E|Sh]]|[E _]]; try (rewrite Hc in E; discriminate).
+      rewrite Hc in Sh. destruct (send_head _ _ _ _ Sh) as [[k E]|[[E _]|[[E E']|[E _]]]]; try discriminate E. exact E'. }
+    subst r.
+    assert (Hm : m = MCh c) by (apply (ch_wf st C t (IUnlock m (UChPush c m0))); rewrite Hc; left; reflexivity). subst m.
+    destruct (ch_push st C t c m0) as [Op _]; [rewrite Hc; left; reflexivity|].
+    exists (PAcc t c m0). split; [|right; eauto]. cbn [evs map fold_left].
+    apply (cr_push st _ ms t c m0 R Hu Op).
+    + thr_simpl.
+    + thr_simpl.
+    + thr_simpl.
+    + thr_simpl.
+    + intro c0. cbn. unfold updZ. destruct (Z.eqb_spec c0 c); subst; cbn; auto.
+    + intro c0. unfold transit. cbn -[Nat.eqb]. unfold updN, th. destruct (Nat.eqb_spec main t) as [E|E]; cbn; [|reflexivity].
+      subst t. rewrite Hc. reflexivity.
+  - (* UChClear *)
+    pose proof (Hcc _ eq_refl ltac:(intros; discriminate)) as Hcc'. exists PNone. split; [|auto].
+    destruct (sh_clear st S t m c) as [Cl _]; [rewrite Hc; left; reflexivity|].
+    cbn [evs map fold_left].
+    apply (cr_frame_s st _ ms ms R (m13_same_refl ms)).
+    + intro c0. cbn. unfold updZ. destruct (Z.eqb_spec c0 c); subst; reflexivity.
+    + intros c0. cbn. unfold updZ. destruct (Z.eqb_spec c0 c) as [->|N]; cbn; [congruence|].
+      intro Ho'. split; [exact Ho'|]. unfold transit. cbn -[Nat.eqb]. unfold updN, th.
+      destruct (Nat.eqb_spec main t) as [E|E]; cbn; [|reflexivity]. subst t. rewrite Hc. reflexivity.
+    + intros c0. cbn. unfold updZ. destruct (Z.eqb_spec c0 c); subst; cbn; auto.
+    + intros c0 E1. cbn. unfold updZ. destruct (Z.eqb_spec c0 c); subst; cbn; congruence.
+    + thr_simpl.
+    + intros u c1 x1 _. thr_impl.
+    + intros u c1 b1 _. thr_impl.
+    + intros u m0 c1 Hu1 Hin. left. exists m0. cbn -[Nat.eqb]. unfold updN, th. destruct (Nat.eqb_spec u t) as [->|Nu]; rewrite ?Nat.eqb_refl; cbn; [|exact Hin].
+      rewrite Hc in Hin. destruct Hin as [Hin|Hin]; [discriminate Hin|exact Hin].
+    + intros u c1 m0 b1 Hu1 Hin. left. exists m0. revert Hin. cbn -[Nat.eqb]. unfold updN, th.
+      destruct (Nat.eqb_spec u t) as [->|Nu]; rewrite ?Nat.eqb_refl; cbn; [|auto]. intro Hin. rewrite Hc. right. exact Hin.
+  - (* UFwd: the handler hands the taken messages to the Fwd *)
+    exists PNone. split; [|auto].
+    assert (Tr0 : forall c0, flat_map (ufwd_of c0) r = []) by (intro c0; apply (sh_ufwd_head st S t _ r c0 Hc)).
+    destruct msgs as [|x0 msgs0].
+    + (* nothing taken *)
+      destruct (closed_head_unlock_not st t m (UFwd c []) r S Hc ltac:(intros; discriminate)) as [Hcc' _].
+      apply (cr_triv st _ _ t (IUnlock m (UFwd c [])) r (@nil instr));
+        [assumption|thr_simpl|thr_simpl|thr_simpl|eassumption|thr_simpl|cr_chs|intros e []|
+         intro c0; cbn; destruct (c =? c0); reflexivity|intros; discriminate|intros j []|].
+      intros c1 m1 b1 Hu1 []. 
+    + assert (Tm : t = main).
+      { destruct (Nat.eq_dec t main) as [E|N]; [exact E|]. exfalso. pose proof (sh_ufwd_main st S t c N) as X.
+        rewrite Hc in X. cbn in X. rewrite Z.eqb_refl in X. discriminate X. }
+      subst t. set (msgs := x0 :: msgs0) in *.
+      assert (Op : copen (chs st c) = true) by (apply (sh_ufwd_open st S main m c msgs); [rewrite Hc; left; reflexivity|discriminate]).
+      assert (Nd0 : memZ c (m13_cdone ms) = false).
+      { destruct (memZ c (m13_cdone ms)) eqn:E; [|reflexivity]. destruct (r_done _ st ms R c E) as [X _]. congruence. }
+      assert (Trc : transit st c = msgs) by (unfold transit; rewrite Hc; cbn; rewrite Z.eqb_refl, (Tr0 c), app_nil_r; reflexivity).
+      pose proof (r_open _ st ms R c Op) as Eo. cbn [pendm] in Eo. rewrite app_nil_r, Trc in Eo.
+      destruct (fwd_batch c msgs ms (cq (chs st c)) (r_bad _ st ms R) Nd0 Nd (r_acc_nd _ st ms R) (r_acc_sent _ st ms R) (r_ord _ st ms R) Eo)
+        as [C1 [C2 [C3 [C4 [C5 [C6 C7]]]]]].
+      cbn zeta in *. set (ms1 := fold_left m13_step (evs main (map (EFwd c) msgs)) ms) in *.
+      destruct (closed_head_unlock_not st main m (UFwd c msgs) r S Hc ltac:(intros; discriminate)) as [Hcc' _].
+      assert (Fw : forall c0, fwds ms1 c0 = fwds ms c0 ++ (if c =? c0 then msgs else [])).
+      { intro c0. rewrite !fwds_eq, C2, flat_map_app, rev_app_distr, fm_fwd_batch. reflexivity. }
+      assert (Tr' : forall c0, transit (set_cont st main r) c0 = []).
+      { intro c0. unfold transit. cbn. unfold updN, th. cbn. apply Tr0. }
+      assert (Tr1 : forall c0, transit st c0 = if c =? c0 then msgs else []).
+      { intro c0. unfold transit. rewrite Hc. cbn. rewrite (Tr0 c0), app_nil_r. reflexivity. }
+      apply (cr_frame st (set_cont st main r) ms ms1 R C3 C4 C5 C6 C7 C1).
+      * intro c0. reflexivity.
+      * intros c0 Ho'. split; [exact Ho'|]. rewrite Fw, Tr', Tr1. cbn [app]. rewrite <- app_assoc. reflexivity.
+      * intros c0 y Hin. rewrite C2 in Hin. apply in_app_or in Hin. destruct Hin as [Hin|Hin]; [|apply (r_ex_fwd _ st ms R c0 y Hin)].
+        rewrite <- in_rev in Hin. apply in_map_iff in Hin. destruct Hin as [z [E _]]. inversion E; subst.
+        apply (sh_ex st S c0). auto.
+      * auto.
+      * intros c0 E1 E2. cbn in E2. congruence.
+      * thr_simpl.
+      * intros u c1 x1 _. thr_impl.
+      * intros u c1 b1 _. thr_impl.
+      * intros u m0 c1 Hu1 Hin. left. exists m0. cbn -[Nat.eqb]. unfold updN, th. destruct (Nat.eqb_spec u main) as [->|Nu]; cbn; [|exact Hin].
+        rewrite Hc in Hin. destruct Hin as [Hin|Hin]; [discriminate Hin|exact Hin].
+      * intros u c1 m0 b1 Hu1 Hin. left. exists m0. revert Hin. cbn -[Nat.eqb]. unfold updN, th.
+        destruct (Nat.eqb_spec u main) as [->|Nu]; cbn; [|auto]. intro Hin. rewrite Hc. right. exact Hin.
+  - pose proof (Hcc _ eq_refl ltac:(intros; discriminate)) as Hcc'. exists PNone. split; [|auto].
+    apply (cr_triv st _ _ t (IUnlock m (UPqFwd p msgs term)) r (@nil instr));
+      [assumption|thr_simpl|thr_simpl|thr_simpl|eassumption|thr_simpl|cr_chs| |intro; reflexivity|intros; discriminate|intros j []|].
+    + intros e He. apply in_app_or in He. destruct He as [He|He].
+      * apply in_map_iff in He. destruct He as [z [<- _]]. exact Logic.I.
+      * destruct term; [destruct He as [<-|[]]; exact Logic.I|destruct He].
+    + intros c1 m1 b1 Hu1 [].
+Qed.
